@@ -3,6 +3,19 @@
 (*  - Choose... actions enumerate every case of the bounded space, family by       *)
 (*    family (Kinds); the chosen cases are exported as JSON and replayed into the  *)
 (*    real code;                                                                   *)
+(*  - every case also says HOW its arrays are handed to the code: `rep` (one       *)
+(*    REPRESENTATION per array argument: element type incl. float32 / integers /   *)
+(*    unsigned, non-native byte order, python list, strided / reversed / read-only *)
+(*    view) and `lat` (the LATTICE value = (x + OFF) * unit the abstract integers  *)
+(*    are mapped to: six small ones and five with |OFF| from 10^8 to 2^40, i.e.    *)
+(*    data whose offset is huge relative to their scatter).  The (rep, lat) tuple  *)
+(*    of a case is a row of a strength-2 orthogonal array (DesignCovers) picked by *)
+(*    a hash of the case, so that the design is spread over every data structure;  *)
+(*    the family "rp" runs a few data sets under EVERY row (or, RepFull, the full  *)
+(*    product).  Neither field changes an abstract VALUE: no expectation of        *)
+(*    Stats.tla reads them - that is the specification of these two dimensions.    *)
+(*    The only thing derived from them is `tol` (clipping cases): the tolerance to *)
+(*    which mean and deviation are known on that lattice (Stats!SClipKeepT);       *)
 (*  - the three mechanisms are run as ACTIONS, one per code step:                  *)
 (*      MedStart/MedStep/MedDone   the cumulative-weight loop of wmedian           *)
 (*      ClipStep/ClipFinish        the clipping iteration of sigma_clip (a real    *)
@@ -16,7 +29,8 @@
 (*    on the lattice (overflow is a TLC error).                                    *)
 EXTENDS Stats, Json
 
-CONSTANTS Kinds,        \* subset of {"wm", "wm2", "cl", "ip", "cv"}: families enumerated in this run
+CONSTANTS Kinds,        \* subset of {"wm", "wm2", "cl", "ip", "cv", "rp"}: families enumerated in this run
+          RepFull,      \* family "rp": TRUE - full product (rep x rep x lattice) for wm / cl, FALSE - the design rows
           MinLen, MaxLen, Vals, Wts, MaxW,      \* wm : 1-d data/weights, total weight 1..MaxW
           MuNone,                                \* wm : TRUE - also enumerate supplied means (DefsAgree about them)
           N2Max, Vals2, Wts2,                    \* wm2: N-by-2 data, 1-d or N-by-2 weights
@@ -38,6 +52,80 @@ MuTable   == << <<0, 1>>, <<5, 2>>, <<3, 1>> >>                                 
 
 Init == phase = "start" /\ c = NoCase /\ st = NoSt
 
+\* ---- representations and lattices --------------------------------------------------------
+\* (names are mapped to numpy / python objects and to numbers by the adapter, which verifies the attributes
+\* declared here against its numbers; "be" = non-native byte order)
+RepSeq  == <<"f8", "f8be", "f4", "i8", "i4be", "u2", "u8", "list", "strided", "reversed", "readonly">>
+NRep    == Len(RepSeq)                 \* 11: prime (the design below needs that)
+IntReps == {"i8", "i4be", "u2", "u8"}
+UnsReps == {"u2", "u8"}
+\* int : every datum (x + OFF) * unit is an integer     half : so is every half-lattice query point
+\* nn  : no datum is negative                           qnn  : no query point is negative
+\* big : |OFF| >= 10^8 lattice units                    i4   : data fit 32-bit integers
+\* wint: every weight w * wunit is an integer
+LatSeq == <<
+  [name |-> "unit",      int |-> TRUE,  half |-> FALSE, nn |-> TRUE,  qnn |-> FALSE, big |-> FALSE, i4 |-> TRUE,  wint |-> TRUE],
+  [name |-> "half-3",    int |-> FALSE, half |-> FALSE, nn |-> FALSE, qnn |-> FALSE, big |-> FALSE, i4 |-> FALSE, wint |-> FALSE],
+  [name |-> "x4+2",      int |-> TRUE,  half |-> TRUE,  nn |-> TRUE,  qnn |-> TRUE,  big |-> FALSE, i4 |-> TRUE,  wint |-> TRUE],
+  [name |-> "fine",      int |-> FALSE, half |-> FALSE, nn |-> TRUE,  qnn |-> FALSE, big |-> FALSE, i4 |-> FALSE, wint |-> FALSE],
+  [name |-> "x8-6",      int |-> TRUE,  half |-> TRUE,  nn |-> FALSE, qnn |-> FALSE, big |-> FALSE, i4 |-> TRUE,  wint |-> TRUE],
+  [name |-> "w1024",     int |-> TRUE,  half |-> FALSE, nn |-> TRUE,  qnn |-> TRUE,  big |-> FALSE, i4 |-> TRUE,  wint |-> TRUE],
+  [name |-> "big40",     int |-> TRUE,  half |-> FALSE, nn |-> TRUE,  qnn |-> TRUE,  big |-> TRUE,  i4 |-> FALSE, wint |-> TRUE],
+  [name |-> "stamp1e9",  int |-> TRUE,  half |-> FALSE, nn |-> TRUE,  qnn |-> TRUE,  big |-> TRUE,  i4 |-> TRUE,  wint |-> FALSE],
+  [name |-> "bigfrac33", int |-> FALSE, half |-> FALSE, nn |-> TRUE,  qnn |-> TRUE,  big |-> TRUE,  i4 |-> FALSE, wint |-> TRUE],
+  [name |-> "bigneg37",  int |-> TRUE,  half |-> TRUE,  nn |-> FALSE, qnn |-> FALSE, big |-> TRUE,  i4 |-> FALSE, wint |-> TRUE],
+  [name |-> "big1e8",    int |-> TRUE,  half |-> FALSE, nn |-> TRUE,  qnn |-> TRUE,  big |-> TRUE,  i4 |-> TRUE,  wint |-> TRUE] >>
+NLat == Len(LatSeq)                    \* = NRep
+\* which representation can carry which lattice exactly (float32: 24 bits and its own rounding - small lattices only)
+RepOKData(r, l)  == /\ (r = "f4" => ~l.big) /\ (r \in IntReps => l.int) /\ (r = "i4be" => l.i4)
+                    /\ (r = "u2" => l.nn /\ ~l.big) /\ (r = "u8" => l.nn)
+RepOKWts(r, l)   == r \in IntReps => l.wint
+RepOKQuery(r, l) == /\ (r = "f4" => ~l.big) /\ (r \in IntReps => l.half) /\ (r = "i4be" => l.i4)
+                    /\ (r = "u2" => l.qnn /\ ~l.big) /\ (r = "u8" => l.qnn)
+RepFix(r, ok)    == IF ok THEN r ELSE "f8"
+\* tolerance (lattice units) to which a mean / deviation is determined: 16 ulp of the operand scale, offset included
+\* (2^-52 * 16 * 2^41 on the big lattices; 2^-23 * 16 * 2^8 for float32 data); 0 = exact judgement
+TolBig == <<1, 128>>
+TolF4  == <<1, 2048>>
+LatTol(l, rx) == IF l.big THEN TolBig ELSE IF rx = "f4" THEN TolF4 ELSE <<0, 1>>
+
+\* orthogonal array of strength 2 with 5 factors of NRep levels and NRep^2 rows: row (a, b) = (b, a, a+b, a+2b, a+3b)
+DesignRows == 0..(NRep * NRep - 1)
+RowFacs(h) == LET g == h % (NRep * NRep)  a == g \div NRep  b == g % NRep
+              IN <<b, a, (a + b) % NRep, (a + 2 * b) % NRep, (a + 3 * b) % NRep>>
+FullFacs   == {<<i, j, k, 0, 0>> : i, j, k \in 0..(NRep - 1)}
+\* factors -> the fields (1: first array, 2: second array, 3: lattice [ip: third array], 4, 5: ip lattices)
+RLData(f) == LET l == LatSeq[f[3] + 1]
+                 rx == RepFix(RepSeq[f[1] + 1], RepOKData(RepSeq[f[1] + 1], l))
+             IN [rep |-> [x |-> rx, w |-> RepFix(RepSeq[f[2] + 1], RepOKWts(RepSeq[f[2] + 1], l))],
+                 lat |-> l.name, tol |-> LatTol(l, rx)]
+RLTable(f) == LET l == LatSeq[f[4] + 1]  lv == LatSeq[f[5] + 1]
+              IN [rep |-> [v |-> RepFix(RepSeq[f[1] + 1], RepOKData(RepSeq[f[1] + 1], lv)),
+                           x |-> RepFix(RepSeq[f[2] + 1], RepOKData(RepSeq[f[2] + 1], l)),
+                           u |-> RepFix(RepSeq[f[3] + 1], RepOKQuery(RepSeq[f[3] + 1], l))],
+                  lat |-> l.name, vlat |-> lv.name]
+\* (covariance matrices have no offset: only the unit of the lattice is used; a python list has no .shape)
+RLCov(f, m) == LET l == LatSeq[f[2] + 1]  r == RepSeq[f[1] + 1]
+                   nonneg == \A i, j \in DOMAIN m : m[i][j] >= 0
+               IN [rep |-> [m |-> RepFix(r, r # "list" /\ (r \in IntReps => l.int) /\ (r \in UnsReps => nonneg))],
+                   lat |-> l.name]
+IpQueries == LET lo == 2 * VSetMin(TabX) - 4
+                 hi == 2 * VSetMax(TabX) + 4
+             IN [i \in 1..(hi - lo + 1) |-> RNorm(lo + i - 1, 2)]          \* half-integer steps, 2 beyond either end
+\* hash of a case -> its design row
+HSeq(s)  == VSumF(LAMBDA i : (s[i] + 1) * (2 * i + 1), DOMAIN s)
+HCols(x) == VSumF(LAMBDA j : HSeq(x[j]) * (j + 2), DOMAIN x)
+WithWm(x, w) == LET rl == RLData(RowFacs(3 * HCols(x) + 7 * HCols(w) + 5 * Len(w)))
+                IN [op |-> "wm", x |-> x, w |-> w, rep |-> rl.rep, lat |-> rl.lat]
+MkCl(x, w, hasw, ns, nit, f) ==
+    LET rl == RLData(f)
+    IN [op |-> "cl", x |-> x, w |-> w, hasw |-> hasw, nsn |-> NSigTable[ns][1], nsd |-> NSigTable[ns][2], niter |-> nit,
+        rep |-> rl.rep, lat |-> rl.lat, tol |-> rl.tol]
+WithCl(x, w, hasw, ns, nit) == MkCl(x, w, hasw, ns, nit, RowFacs(3 * HSeq(x) + 7 * HSeq(w) + 13 * ns + (IF hasw THEN 5 ELSE 0)))
+MkIp(xs, vs, f) == LET rl == RLTable(f)
+                   IN [op |-> "ip", xs |-> xs, vs |-> vs, us |-> IpQueries, rep |-> rl.rep, lat |-> rl.lat, vlat |-> rl.vlat]
+MkCv(m, f)      == LET rl == RLCov(f, m) IN [op |-> "cv", m |-> m, rep |-> rl.rep, lat |-> rl.lat]
+
 \* ---- wmom / wmedian / get_stats, 1-d -------------------------------------------------
 ChooseX1 ==
     /\ phase = "start" /\ "wm" \in Kinds
@@ -47,7 +135,7 @@ ChooseW1 ==
     /\ phase = "wm_x"
     /\ \E w \in [1..Len(c.x[1]) -> Wts] :
           /\ SSumW(w, DOMAIN w) \in 1..MaxW
-          /\ c' = [op |-> "wm", x |-> c.x, w |-> <<w>>]
+          /\ c' = WithWm(c.x, <<w>>)
     /\ phase' = "wm" /\ UNCHANGED st
 ChooseMu ==
     /\ phase = "wm" /\ MuNone
@@ -73,7 +161,7 @@ ChooseW2 ==
     /\ phase = "wm2_x"
     /\ \E d \in 1..2 : \E w \in [1..d -> [1..Len(c.x[1]) -> Wts2]] :
           /\ \A j \in 1..d : SSumW(w[j], DOMAIN w[j]) \in 1..MaxW
-          /\ c' = [op |-> "wm", x |-> c.x, w |-> w]
+          /\ c' = WithWm(c.x, w)
     /\ phase' = "wm2" /\ UNCHANGED st
 
 \* ---- sigma clipping -------------------------------------------------------------------
@@ -85,15 +173,15 @@ ChooseClipW ==
     /\ phase = "cl_x"
     /\ \E hasw \in BOOLEAN : \E ns \in NSigIdx :
        \E w \in (IF hasw THEN (IF Len(c.x) <= ClipMaxLenW THEN [1..Len(c.x) -> ClipWts] ELSE {}) ELSE {SOnes(Len(c.x))}) :
-          c' = [op |-> "cl", x |-> c.x, w |-> w, hasw |-> hasw,
-                nsn |-> NSigTable[ns][1], nsd |-> NSigTable[ns][2], niter |-> ClipNiter]
+          c' = WithCl(c.x, w, hasw, ns, ClipNiter)
     /\ st' = [S |-> DOMAIN c.x, k |-> 0, done |-> FALSE]
     /\ phase' = "cl"
-\* one round of the loop in sigma_clip:  w = where(|x-m| < nsig*s);
+\* one round of the loop in sigma_clip:  w = where(|x-m| < nsig*s)  - evaluated with the mean and deviation
+\* known to c.tol only (the exact comparison on the small lattices, where c.tol = 0);
 \*   w.size == 0 -> break (S stands);  w.size == nold -> break;  else S := w
 ClipStep ==
     /\ phase = "cl" /\ ~st.done /\ st.k < c.niter
-    /\ \E T \in SClipCands(c, st.S) :
+    /\ \E T \in SClipCandsT(c, st.S) :
           st' = IF T = {} \/ T = st.S THEN [st EXCEPT !.done = TRUE]
                 ELSE [S |-> T, k |-> st.k + 1, done |-> FALSE]
     /\ UNCHANGED <<phase, c>>
@@ -102,9 +190,6 @@ ClipFinish ==
     /\ phase' = "cl_done" /\ UNCHANGED <<c, st>>
 
 \* ---- interpolation tables ------------------------------------------------------------
-IpQueries == LET lo == 2 * VSetMin(TabX) - 4
-                 hi == 2 * VSetMax(TabX) + 4
-             IN [i \in 1..(hi - lo + 1) |-> RNorm(lo + i - 1, 2)]          \* half-integer steps, 2 beyond either end
 ChooseNodes ==
     /\ phase = "start" /\ "ip" \in Kinds
     /\ \E X \in SUBSET TabX : /\ Cardinality(X) \in 2..TabMax
@@ -112,7 +197,7 @@ ChooseNodes ==
     /\ phase' = "ip_x" /\ UNCHANGED st
 ChooseTabV ==
     /\ phase = "ip_x"
-    /\ \E vs \in [1..Len(c.xs) -> TabV] : c' = [op |-> "ip", xs |-> c.xs, vs |-> vs, us |-> IpQueries]
+    /\ \E vs \in [1..Len(c.xs) -> TabV] : c' = MkIp(c.xs, vs, RowFacs(3 * HSeq(c.xs) + 7 * HSeq(vs)))
     /\ phase' = "ip" /\ UNCHANGED st
 
 \* ---- covariance matrices ----------------------------------------------------------------
@@ -126,12 +211,45 @@ ChooseCovOff ==
     /\ phase = "cv_d"
     /\ LET n == Len(c.dg) IN
        \E off \in [1..((n * (n - 1)) \div 2) -> 0..CovOffN] :
-          c' = [op |-> "cv",
-                m |-> [i \in 1..n |-> [j \in 1..n |-> IF i = j THEN c.dg[i] ELSE off[PairIdx(n, i, j)] - CovShift]]]
+          LET m == [i \in 1..n |-> [j \in 1..n |-> IF i = j THEN c.dg[i] ELSE off[PairIdx(n, i, j)] - CovShift]]
+          IN c' = MkCv(m, RowFacs(3 * HSeq(c.dg) + 7 * HSeq(off) + n))
+    /\ phase' = "cv" /\ UNCHANGED st
+
+\* ---- family "rp": a few data sets of every kind under every row of the design ----------------------
+RpRows3 == IF RepFull THEN FullFacs ELSE {RowFacs(h) : h \in DesignRows}
+RpRows  == {RowFacs(h) : h \in DesignRows}
+RpWmData == { << << <<0, 1, 3, 4>> >>, << <<1, 2, 8, 1>> >> >>,                              \* <<columns of x, columns of w>>
+              << << <<3>> >>, << <<2>> >> >>,
+              << << <<0, 3, 1>>, <<4, 4, 0>> >>, << <<1, 0, 2>> >> >>,
+              << << <<0, 3, 1>>, <<4, 0, 2>> >>, << <<1, 0, 2>>, <<2, 2, 1>> >> >> }
+RpClData == { << <<3, 3, 4, 3, 2, 3, 12, 0>>, <<1, 1, 1, 1, 1, 1, 1, 1>>, FALSE, 3, 4 >>,      \* <<x, w, hasw, nsig index, niter>>
+              << <<1, 2, 2, 1, 6>>, <<1, 2, 1, 8, 1>>, TRUE, 2, 4 >>,
+              << <<0, 0, 1, 1, 2, 5, 11>>, <<1, 1, 1, 1, 1, 1, 1>>, FALSE, 2, 1 >> }
+RpIpData == { << <<0, 1, 3, 4>>, <<4, 0, 1, 1>> >>, << <<1, 2>>, <<0, 4>> >> }
+RpCvData == { << <<4, -2>>, <<-2, 9>> >>, << <<1, 1, 0>>, <<1, 4, 2>>, <<0, 2, 9>> >> }
+ChooseRpWm ==
+    /\ phase = "start" /\ "rp" \in Kinds
+    /\ \E d \in RpWmData : \E f \in RpRows3 :
+          LET rl == RLData(f) IN c' = [op |-> "wm", x |-> d[1], w |-> d[2], rep |-> rl.rep, lat |-> rl.lat]
+    /\ phase' = "wm2" /\ UNCHANGED st
+ChooseRpCl ==
+    /\ phase = "start" /\ "rp" \in Kinds
+    /\ \E d \in RpClData : \E f \in RpRows3 :
+          /\ c' = MkCl(d[1], d[2], d[3], d[4], d[5], f)
+          /\ st' = [S |-> DOMAIN d[1], k |-> 0, done |-> FALSE]
+    /\ phase' = "cl"
+ChooseRpIp ==
+    /\ phase = "start" /\ "rp" \in Kinds
+    /\ \E d \in RpIpData : \E f \in RpRows : c' = MkIp(d[1], d[2], f)
+    /\ phase' = "ip" /\ UNCHANGED st
+ChooseRpCv ==
+    /\ phase = "start" /\ "rp" \in Kinds
+    /\ \E m \in RpCvData : \E f \in RpRows : c' = MkCv(m, f)
     /\ phase' = "cv" /\ UNCHANGED st
 
 NextExport == ChooseX1 \/ ChooseW1 \/ ChooseX2 \/ ChooseW2 \/ ChooseClipX \/ ChooseClipW
               \/ ChooseNodes \/ ChooseTabV \/ ChooseCovDiag \/ ChooseCovOff
+              \/ ChooseRpWm \/ ChooseRpCl \/ ChooseRpIp \/ ChooseRpCv
 Next == NextExport \/ ChooseMu \/ MedStart \/ MedStep \/ MedDone \/ ClipStep \/ ClipFinish
 
 Spec == Init /\ [][Next]_vars
@@ -164,14 +282,30 @@ MedRefines == phase = "med_done" => c.x[1][SSortPos(c.x[1], DOMAIN c.x[1])[st.k]
 
 \* the clipping iteration: what it ends on is a subset the property allows; it never
 \* reports the empty set; it stops before the limit only when nothing changes/survives
-ClipRefines  == phase = "cl_done" => st.S \in SClipFinals(c)
+ClipRefines  == phase = "cl_done" => st.S \in SClipFinalsT(c)
 ClipNonEmpty == phase \in {"cl", "cl_done"} => st.S # {} /\ st.k <= c.niter
-ClipStopsOK  == (phase = "cl_done" /\ st.k < c.niter) => SClipStops(c, st.S)
+ClipStopsOK  == (phase = "cl_done" /\ st.k < c.niter) => SClipStopsPT(c, st.S)
 \* the predicate forms used by the trace specification agree with the set forms, on every subset
+\* (quantifies over SUBSET x SUBSET of the positions in every state: checked in a run of its own on a small scope)
 ClipPredsAgree == phase = "cl" =>
     \A S \in SUBSET DOMAIN c.x :
         /\ SClipStopsP(c, S) <=> SClipStops(c, S)
-        /\ \A U \in SUBSET DOMAIN c.x : SClipInSucc(c, S, U) <=> U \in SClipSucc(c, S)
+        /\ (SClipStopsPT(c, S) <=> (S = {} \/ \E T \in SClipCandsT(c, S) : T = {} \/ T = S))
+        /\ \A U \in SUBSET DOMAIN c.x : (SClipInSucc(c, S, U) <=> U \in SClipSucc(c, S))
+        /\ \A U \in SUBSET DOMAIN c.x : (SClipInSuccT(c, S, U) <=> U \in SClipSuccT(c, S))
+\* the tolerance-aware relations: with tolerance 0 they ARE the exact ones; a positive tolerance only moves points
+\* from "surely kept" / "surely discarded" to "free", so whatever the exact relations allow stays allowed
+ClipTolSound == phase = "cl" =>
+    LET c0 == [c EXCEPT !.tol = <<0, 1>>]
+    IN /\ \A S \in SUBSET DOMAIN c.x :
+             /\ SClipKeepT(c0, S) = SClipKeep(c, S) /\ SClipFreeT(c0, S) = SClipTies(c, S)
+             /\ \A t \in {TolF4, TolBig} :
+                   LET ct == [c EXCEPT !.tol = t]
+                   IN /\ SClipKeepT(ct, S) \subseteq SClipKeep(c, S)
+                      /\ (SClipKeep(c, S) \cup SClipTies(c, S)) \subseteq (SClipKeepT(ct, S) \cup SClipFreeT(ct, S))
+                      /\ SClipKeepT(ct, S) \cap SClipFreeT(ct, S) = {}
+       /\ st.k = 0 => /\ SClipFinalsT(c0) = SClipFinals(c)
+                      /\ \A t \in {TolF4, TolBig} : SClipFinals(c) \subseteq SClipFinalsT([c EXCEPT !.tol = t])
 ClipShrinks  == [][(phase = "cl" /\ phase' = "cl") =>
                      (st'.S \subseteq st.S /\ (st'.S # st.S <=> st'.k = st.k + 1) /\ (st'.S # st.S => ~st.done))]_vars
 \* every reported subset has a defined, consistent set of statistics (exercises the formulas
@@ -179,6 +313,19 @@ ClipShrinks  == [][(phase = "cl" /\ phase' = "cl") =>
 ClipStatsDefined == phase = "cl_done" =>
     /\ SClipVar(c, st.S)[1] >= 0
     /\ SErr2Calc(c.x, c.w, st.S, SClipMean(c, st.S))[1] >= 0 /\ SErr2Inv(c.w, st.S)[1] = 1
+
+\* the (representation, lattice) design is pairwise covering; names are distinct; the attributes are consistent
+DesignCovers == phase = "start" =>
+    /\ NLat = NRep /\ Cardinality(VRange(RepSeq)) = NRep /\ Cardinality({LatSeq[i].name : i \in 1..NLat}) = NLat
+    /\ \A j, k \in 1..5 : j < k => \A p, q \in 0..(NRep - 1) : \E h \in DesignRows : RowFacs(h)[j] = p /\ RowFacs(h)[k] = q
+    /\ \A i \in 1..NLat : LET l == LatSeq[i] IN (l.half => l.int) /\ (l.qnn => l.nn) /\ (l.i4 => l.int)
+\* what a case carries is admissible: the representation can hold the lattice, the tolerance is the lattice's
+RepAdmissible == phase \in {"wm", "wm2", "cl", "ip", "cv"} =>
+    LET l == CHOOSE ll \in VRange(LatSeq) : ll.name = c.lat
+    IN CASE c.op \in {"wm", "cl"} -> RepOKData(c.rep.x, l) /\ RepOKWts(c.rep.w, l) /\ (c.op = "cl" => c.tol = LatTol(l, c.rep.x))
+         [] c.op = "ip" -> LET lv == CHOOSE ll \in VRange(LatSeq) : ll.name = c.vlat
+                           IN RepOKData(c.rep.v, lv) /\ RepOKData(c.rep.x, l) /\ RepOKQuery(c.rep.u, l)
+         [] c.op = "cv" -> c.rep.m # "list" /\ (c.rep.m \in IntReps => l.int)
 
 \* interplin: the searchsorted index selection yields an allowed segment at every query;
 \* the property-level definition is single-valued (segments agree at the nodes)
@@ -195,5 +342,7 @@ CovSane == phase = "cv" =>
 
 \* ---- export -------------------------------------------------------------------------------
 Export == /\ (DoExport /\ phase \in {"wm", "wm2", "cl", "ip", "cv"}) => PrintT(<<"CASE", ToJson(c)>>)
-          /\ (DoExport /\ phase = "start") => PrintT(<<"OPTS", ToJson([mus |-> MuTable, nsigs |-> NSigTable])>>)
+          /\ (DoExport /\ phase = "start") =>
+                PrintT(<<"OPTS", ToJson([mus |-> MuTable, nsigs |-> NSigTable, reps |-> RepSeq, lats |-> LatSeq,
+                                         intreps |-> IntReps, tolbig |-> TolBig, tolf4 |-> TolF4])>>)
 =============================================================================
